@@ -112,7 +112,8 @@ def sabs (a : BV4) : FE BV4 := do
   let neg ← plusOne (lnot a)
   pure (node .mux a.length [s, a, neg])
 
-/-- `mul(SInt, SInt)` (`SignalArithmeticOp.cpp:49-68`); `abs` keeps the operand's expansion policy -/
+/-- `mul(SInt, SInt)` (`SignalArithmeticOp.cpp:49-68`); `abs` returns `zext(res)` (`:70-77`, since `2477763`): the magnitudes
+    meet with zero expansion policy, whatever the policy of the operands -/
 def smul (pa pb : Pol) (a b : BV4) : FE BV4 :=
   if a.length = b.length then arith .MUL pa pb a b
   else do
@@ -121,7 +122,7 @@ def smul (pa pb : Pol) (a b : BV4) : FE BV4 :=
     let resultSign := node (.logic .XOR) 1 [lhSign, rhSign]
     let absL ← sabs a
     let absR ← sabs b
-    let absRes ← arith .MUL pa pb absL absR
+    let absRes ← arith .MUL .zero .zero absL absR
     let neg ← plusOne (lnot absRes)
     pure (node .mux absRes.length [resultSign, absRes, neg])
 
@@ -156,13 +157,14 @@ def normAmount (fill : Fill) (width amount : Nat) : Nat :=
 def rightShiftRanges (width amount : Nat) (fill : Fill) : List Range :=
   (if amount < width then [⟨width - amount, .input 0 amount⟩] else []) ++
   (match fill with
-   | .rotate => [⟨amount, .input 0 0⟩]
+   | .rotate => if amount > 0 then [⟨amount, .input 0 0⟩] else []
    | f => fillRanges f amount ((width + 2^64 - 1) % 2^64))
 
 /-- the ranges of `leftShiftRewireOp` for a normalised amount (`:93-137`); `width - amount` is computed in `size_t` -/
 def leftShiftRanges (width amount : Nat) (fill : Fill) : List Range :=
   (match fill with
-   | .rotate => [⟨amount, .input 0 ((width + 2^64 - amount % 2^64) % 2^64)⟩]
+   | .rotate => -- no empty range (it would sit at offset `width`, one past the operand)
+     if amount > 0 then [⟨amount, .input 0 ((width + 2^64 - amount % 2^64) % 2^64)⟩] else []
    | f => fillRanges f amount 0) ++
   (if amount < width then [⟨width - amount, .input 0 0⟩] else [])
 
